@@ -33,8 +33,8 @@ ASSUMPTIONS = ["out of domain: links to undeclared segments, parallel links that
 
 
 def plan(tier):
-    return {"cases": 1000 if tier == "quick" else 3000, "shards": 16,
-            "shard_budget_s": 400 if tier == "quick" else 2400}
+    return {"cases": 1000 if tier == "quick" else 30000, "shards": 16,
+            "shard_budget_s": 400 if tier == "quick" else 3300}
 
 
 def required(tier):
